@@ -137,6 +137,56 @@ Section Raster.
     Definition mean3 (X : raster) : raster := mkR (rows X) (cols X) (mean_cell X).
   End Mean.
 
+  (* hillshade._run_numpy:  x, y = np.gradient(data)  (spacing 1, edge_order 1:
+     central difference (f[i+1]-f[i-1])/2 inside, one-sided f[1]-f[0] and
+     f[n-1]-f[n-2] on the two edge rows / columns), a per-cell shading of the two
+     gradients, then  result[(0,-1), :] = nan ; result[:, (0,-1)] = nan *)
+  Section Hill.
+    Variable sub : T -> T -> T.
+    Variable half : T -> T.
+    Variable shade : T -> T -> T.
+    Definition grad1d (n : Z) (f : Z -> T) (i : Z) : T :=
+      if i =? 0 then sub (f 1) (f 0)
+      else if i =? n - 1 then sub (f (n - 1)) (f (n - 2))
+      else half (sub (f (i + 1)) (f (i - 1))).
+    Definition grad_rows (X : raster) : raster :=
+      mkR (rows X) (cols X) (fun y x => grad1d (rows X) (fun k => get X k x) y).
+    Definition grad_cols (X : raster) : raster :=
+      mkR (rows X) (cols X) (fun y x => grad1d (cols X) (fun k => get X y k) x).
+    Definition hillshade_np (X : raster) : raster :=
+      let gx := grad_rows X in
+      let gy := grad_cols X in
+      mkR (rows X) (cols X) (fun y x =>
+        if (y =? 0) || (y =? rows X - 1) || (x =? 0) || (x =? cols X - 1) then nan
+        else shade (get gx y x) (get gy y x)).
+  End Hill.
+
+  (* perlin._perlin_dask_numpy / terrain._terrain_dask_numpy: a per-cell function g
+     of two COORDINATE ramps  linx = linspace(ax, bx, W, endpoint=False) (columns),
+     liny = linspace(ay, by, H, endpoint=False) (rows), meshgrid, map_blocks.
+     np.linspace: value i is  a + i*step.  da.linspace: chunk k is
+     linspace(blockstart_k, ..)[i] = blockstart_k + i*step  with
+     blockstart_0 = a, blockstart_{k+1} = blockstart_k + step*len_k. *)
+  Section Ramp.
+    Variable add : T -> T -> T.
+    Variable scale : Z -> T -> T.
+    Definition ramp (a st : T) (i : Z) : T := add a (scale i st).
+    Fixpoint block_starts (b st : T) (cs : list positive) : list T :=
+      match cs with
+      | [] => []
+      | c :: r => b :: block_starts (add b (scale (Zpos c) st)) st r
+      end.
+    Definition coord_whole (g : T -> T -> T) (ax stx ay sty : T) (H W : Z) : raster :=
+      mkR H W (fun y x => g (ramp ax stx x) (ramp ay sty y)).
+    Definition coord_tile (g : T -> T -> T) (stx sty : T) (by_ bx : (Z * Z) * T) : raster :=
+      mkR (snd (fst by_)) (snd (fst bx)) (fun i j => g (ramp (snd bx) stx j) (ramp (snd by_) sty i)).
+    Definition coord_blocks (g : T -> T -> T) (ax stx ay sty : T) (cy cx : list positive) : raster :=
+      vcat_all (map (fun by_ =>
+        hcat_all (map (fun bx => coord_tile g stx sty by_ bx)
+                      (combine (spans 0 cx) (block_starts ax stx cx))))
+        (combine (spans 0 cy) (block_starts ay sty cy))).
+  End Ramp.
+
   (* per-cell kernels (classify._cpu_binary/_cpu_bin, every spectral index on a
      raster of band tuples, _normalize_data_cpu, _calc_hotspots_numpy) *)
   Definition pointwise (h : T -> T) (X : raster) : raster :=
@@ -224,6 +274,20 @@ Definition xsum (l : list xv) : xv :=
   fold_left (fun acc v => match acc, v with XFin s, XFin z => XFin (s + z) | _, _ => acc end) l (XFin 0).
 Definition xmean_part (which : Z) : raster xv -> raster xv :=
   mean3 xisnan xisnan (if which =? 0 then xsum else xcount).
+
+(* hillshade stand-in for execution: the model is run on 2*data (even integers),
+   so [half] is exact, and the shading is gx^2 + gy^2 = 4 * |gradient(data)|^2
+   (the code goes on with arctan/sin/cos, libm, not modelled) *)
+Definition xsub (a b : xv) : xv := match a, b with XFin x, XFin y => XFin (x - y) | _, _ => XNaN end.
+Definition xhalf (a : xv) : xv := match a with XFin x => XFin (x / 2) | _ => XNaN end.
+Definition xhill : raster xv -> raster xv := hillshade_np XNaN xsub xhalf (fun a b => xadd (xmul a a) (xmul b b)).
+
+(* coordinate ramps over Z (numerators of the rational coordinates): the per-cell
+   function packs the two coordinates so that both can be read back *)
+Definition zramp_whole (ax stx ay sty H W : Z) : list (list Z) :=
+  tabulate (coord_whole Z.add Z.mul (fun x y => x * 1000003 + y) ax stx ay sty H W).
+Definition zramp_blocks (ax stx ay sty : Z) (cy cx : list positive) : list (list Z) :=
+  tabulate (coord_blocks 0 Z.add Z.mul (fun x y => x * 1000003 + y) ax stx ay sty cy cx).
 
 (* what the driver calls: whole-raster result and chunked result *)
 Definition run_whole (F : raster xv -> raster xv) (data : list (list xv)) : list (list xv) :=
